@@ -14,20 +14,23 @@ def sig_fn(pre, op, ret, post):
     return {}
 
 
-def record(adapter, ops):
+def record(adapter, ops, sparse=None):
+    """sparse (a random.Random): the state is observed after about one operation in five and after the last one only -
+    observing calls the object (reads every line) and would hide what a history leaves behind (positions, caches)"""
     w = adapter.new_world()
     tr = []
     try:
-        for op in ops:
+        for k, op in enumerate(ops):
+            look = sparse is None or k == 0 or k == len(ops) - 1 or sparse.random() < 0.2
             try:
                 ret = graphwalk.guarded(lambda: adapter.apply(w, op), 10.0)
-                st = graphwalk.guarded(lambda: graphwalk.safe_obs(adapter, w), 10.0)
+                st = graphwalk.guarded(lambda: graphwalk.safe_obs(adapter, w), 10.0) if look else 0
             except Skip:
                 return None
             except (graphwalk.Timeout, Unexpected) as e:
                 tr.append({"op": op, "ret": None, "st": None, "exc": type(e).__name__ + ":" + str(e)})
                 break
-            tr.append({"op": op, "ret": ret, "st": st})
+            tr.append({"op": op, "ret": ret, "st": st} if look else {"op": op, "ret": ret, "st": 0, "hs": 0})
     finally:
         adapter.close(w)
     return tr
@@ -103,9 +106,11 @@ def run(ctx):
     rnd = random.Random(ctx.seed * 7919 + 11)
     traces = []
     names = list(vs)
-    for i in range(16 if quick else 120):
+    for i in range(32 if quick else 240):
         name = names[i % len(names)]
-        t = record(lf.LineFileAdapter(name, vs[name]), big_ops(rnd, 200 if i % 4 else 30, 300))
+        # every second round of the variants is recorded with sparse observations (nothing but the recorded operations touches the object)
+        t = record(lf.LineFileAdapter(name, vs[name]), big_ops(rnd, 200 if i % 4 else 30, 300),
+                   sparse=rnd if (i // len(names)) % 2 else None)
         if t is not None:
             traces.append(t)
     good = split_failed(traces, ctx, "LineFile")
